@@ -7,6 +7,7 @@ import (
 	"encoding/json"
 	"fmt"
 	"sort"
+	"strings"
 
 	"github.com/Tom-Johnston/mamba/dawg"
 )
@@ -69,6 +70,9 @@ type builderStep struct {
 type builderCase struct {
 	ZeroValue bool          `json:"zero_value_builder,omitempty"`
 	Steps     []builderStep `json:"adds"`
+	// Then: after Finish the same Builder is re-initialised and builds this second word list; the second Dawg must be
+	// right and the first one must still be right afterwards
+	Then []string `json:"then_reuse_builder_for,omitempty"`
 }
 
 func evalBuilder(bc builderCase) *Failure {
@@ -131,6 +135,46 @@ func evalBuilder(bc builderCase) *Failure {
 	probes := wordsUpTo([]byte("abc"), 3)
 	if cl, what := checkDawgAgainst(d, accepted, probes, true); cl != "" {
 		return mk("result/"+cl, fmt.Sprintf("accepted %q: %s", accepted, what))
+	}
+	if bc.Then != nil {
+		var d2 *dawg.Dawg
+		if msg, p := try(func() {
+			db.Initialise()
+			for _, w := range bc.Then {
+				if e := db.Add([]byte(w)); e != nil {
+					err = e
+					return
+				}
+			}
+			d2, err = db.Finish()
+		}); p || err != nil {
+			return mk("reuse/second-build-fails", fmt.Sprint(msg, err))
+		}
+		if cl, what := checkDawgAgainst(d2, bc.Then, probes, true); cl != "" {
+			return mk("reuse/second-result/"+cl, fmt.Sprintf("second word list %q: %s", bc.Then, what))
+		}
+		if cl, what := checkDawgAgainst(d, accepted, probes, true); cl != "" {
+			return mk("reuse/first-dawg-changed/"+cl, fmt.Sprintf("after the builder built %q, the first Dawg (%q): %s", bc.Then, accepted, what))
+		}
+		// both survive an encode/decode round trip
+		for i, pair := range []struct {
+			d  *dawg.Dawg
+			ws []string
+		}{{d, accepted}, {d2, bc.Then}} {
+			var t dawg.Dawg
+			if msg, p := try(func() {
+				var enc []byte
+				enc, err = pair.d.GobEncode()
+				if err == nil {
+					err = t.GobDecode(enc)
+				}
+			}); p || err != nil {
+				return mk("reuse/encode-decode-fails", fmt.Sprint(msg, err))
+			}
+			if cl, what := checkDawgAgainst(&t, pair.ws, probes, true); cl != "" {
+				return mk("reuse/decoded/"+cl, fmt.Sprintf("Dawg %d of a reused builder (%q) after GobEncode/GobDecode: %s", i+1, pair.ws, what))
+			}
+		}
 	}
 	return nil
 }
@@ -362,6 +406,62 @@ func runC12(c *Ctx) {
 		}
 	})
 	c.SetCount("builder_add_sequences", int64(len(seqs)))
+	// builder reuse: every pair of word sets over the 7 words of length <= 2 (first built through Add, then the same
+	// Builder re-initialised for the second)
+	{
+		u2s := wordsUpTo([]byte("ab"), 2)
+		nsub := int64(1) << uint(len(u2s))
+		c.parFor(nsub*nsub, 256, func(lo, hi int64) {
+			for x := lo; x < hi; x++ {
+				first, second := subsetOf(u2s, uint64(x/nsub)), subsetOf(u2s, uint64(x%nsub))
+				var steps []builderStep
+				for _, w := range first {
+					steps = append(steps, builderStep{Word: w})
+				}
+				if second == nil {
+					second = []string{}
+				}
+				bc := builderCase{Steps: steps, Then: second, ZeroValue: x%2 == 1}
+				c.Check(func() *Failure { return evalBuilder(bc) })
+				c.Nontrivial(1)
+			}
+		})
+		c.SetCount("builder_reuse_pairs", nsub*nsub)
+	}
+	// automata with hundreds of nodes (registers that switch strategy at a size): two or three long words sharing
+	// tails, and a dictionary-like set plus words whose tails occur in it
+	{
+		rep := func(u string, k int) string { return strings.Repeat(u, k) }
+		var big []dawgCase
+		for _, k := range []int{200, 254, 255, 256, 257, 300} {
+			for _, j := range []int{k - 20, k - 1, k} {
+				big = append(big, dawgCase{Words: dedupSorted([]string{"a" + rep("z", k), "b" + rep("z", j)}), Alpha: "abz", ProbeLen: 2})
+				big = append(big, dawgCase{Words: dedupSorted([]string{"a" + rep("z", k), "b" + rep("z", j), "c" + rep("y", 5) + rep("z", j/2)}), Alpha: "abz", ProbeLen: 2})
+			}
+		}
+		var dict []string
+		for a := 0; a < 4; a++ {
+			for b := 0; b < 4; b++ {
+				for cc := 0; cc < 4; cc++ {
+					for d := 0; d < 4; d++ {
+						if (a*7+b*5+cc*3+d)%8 != 3 {
+							dict = append(dict, string([]byte{byte('a' + a), byte('e' + b), byte('i' + cc), byte('m' + d)}))
+						}
+					}
+				}
+			}
+		}
+		big = append(big, dawgCase{Words: dedupSorted(append(append([]string{}, dict...), "yqrstuvwx", "ztuvwx", "zzeim")), Alpha: "aeimz", ProbeLen: 2})
+		big = append(big, dawgCase{Words: dedupSorted(append(append([]string{}, dict...), "y"+rep("q", 300), "z"+rep("q", 250))), Alpha: "aeimz", ProbeLen: 2})
+		c.parFor(int64(len(big)), 1, func(lo, hi int64) {
+			for _, dc := range big[lo:hi] {
+				dc := dc
+				c.Check(func() *Failure { return evalDawgSet(dc) })
+				c.Nontrivial(1)
+			}
+		})
+		c.SetCount("large_automaton_word_sets", int64(len(big)))
+	}
 	c.Sample("word-set", dawgCase{Words: []string{"", "ab", "abb", "b"}, Alpha: "abc", ProbeLen: 4})
 	c.Sample("builder", builderCase{Steps: []builderStep{{Word: "a"}, {Word: "a"}, {Word: "", IsNil: true}, {Word: "ab"}}})
 	c.Assume("the caller does not modify a word slice after passing it to Add")
